@@ -15,7 +15,11 @@ def rand_type(rng, depth=0, maxdepth=3, leaf_p=.45):
         return rng.choice(LEAVES)
     k = rng.random()
     if k < .3:
-        return rand_type(rng, depth + 1, maxdepth, leaf_p) + "[%d]" % rng.choice([0, 1, 2, 3, 4, 7, 8, 9])
+        child = rand_type(rng, depth + 1, maxdepth, leaf_p)
+        if child in ("byte", "uint8", "bool") and rng.random() < .3:
+            # lengths at which a byte array coincides with another type's layout (address = 32 bytes) and their neighbours
+            return child + "[%d]" % rng.choice([31, 32, 32, 32, 33, 64])
+        return child + "[%d]" % rng.choice([0, 1, 2, 3, 4, 7, 8, 9])
     if k < .55:
         return rand_type(rng, depth + 1, maxdepth, leaf_p) + "[]"
     if k < .7:
